@@ -85,9 +85,21 @@ let judge _name ins outs =
       | Some (ms, _) -> pr_traces ms | None -> "out-of-fuel" in
     match c02_fail conns ts live ret with
     | Some c ->
+        (* for the report: the first request token whose exchange fails this clause *)
+        let all_toks = List.concat (split_k ins) in
+        let culprit =
+          let chk q e = match c with
+            | CSkip -> cl_skip_ex q e | CError -> cl_error_ex q e
+            | CResmod -> cl_resmod_ex q e | CReqmod -> cl_reqmod_ex e | _ -> true in
+          let all_ev = List.concat ts in
+          let rec go k = function
+            | [] -> "req=- tok=-"
+            | t :: r -> if chk (parse_req t) (ex (nat_of_int k) all_ev) then go (k + 1) r
+                        else Printf.sprintf "req=%d tok=%s" k t in
+          go 0 all_toks in
         VPropfail (clause_name c,
-                   Printf.sprintf "observed=%s_F.%s.%s repaired-model=%s matches-unrepaired-model=%b"
-                     (pr_traces ts) (i live) (i ret) (want fixed) (agrees asis conns ts live))
+                   Printf.sprintf "%s observed=%s_F.%s.%s repaired-model=%s matches-unrepaired-model=%b"
+                     culprit (pr_traces ts) (i live) (i ret) (want fixed) (agrees asis conns ts live))
     | None ->
         if agrees fixed conns ts live then
           VOk (List.exists (fun t -> t <> "K" && t <> "gPOPk") ins)
